@@ -35,6 +35,8 @@ type G struct {
 	d    *graph.Directed
 	wu   *graph.WeightedUndirected
 	wd   *graph.WeightedDirected
+
+	holds []*holdT
 }
 
 func newG(kind string, n int) *G {
@@ -133,11 +135,261 @@ func comps(count int, id func(int) int, n int, cs [][]int) string {
 	return fmt.Sprintf("%d;%s;%s", count, dotted(ids), cstr)
 }
 
+type holdT struct {
+	f    []string
+	obj  any
+	used bool
+	out  string
+}
+
+func atoi(s string) int { v, _ := strconv.Atoi(s); return v }
+
+// build creates the result object of a query op (nil, false when the op does not apply to this graph kind).
+func (g *G) build(f []string) (any, bool) {
+	switch f[0] {
+	case "PATHS":
+		return g.paths(atoi(f[2]), strat(f[1])), true
+	case "ORD":
+		return g.orders(strat(f[1])), true
+	case "CC":
+		if g.kind == "U" {
+			return g.u.ConnectedComponents(), true
+		} else if g.kind == "WU" {
+			return g.wu.ConnectedComponents(), true
+		}
+	case "SCC":
+		if g.kind == "D" {
+			return g.d.StronglyConnectedComponents(), true
+		} else if g.kind == "WD" {
+			return g.wd.StronglyConnectedComponents(), true
+		}
+	case "CYC":
+		if g.kind == "D" {
+			return g.d.DirectedCycle(), true
+		}
+	case "TOPO":
+		if g.kind == "D" {
+			return g.d.Topological(), true
+		}
+	case "MST":
+		if g.kind == "WU" {
+			return g.wu.MinimumSpanningTree(), true
+		}
+	case "SPT":
+		if g.kind == "WD" {
+			return g.wd.ShortestPathTree(atoi(f[1])), true
+		}
+	}
+	return nil, false
+}
+
+// render queries a result object completely and prints it.
+func (g *G) render(f []string, obj any) string {
+	switch f[0] {
+	case "PATHS":
+		p := obj.(*graph.Paths)
+		out := make([]string, 0, g.n)
+		for v := 0; v < g.n; v++ {
+			if path, ok := p.To(v); ok {
+				out = append(out, dotted(path))
+			} else {
+				out = append(out, "-")
+			}
+		}
+		if len(out) == 0 {
+			return "_"
+		}
+		return strings.Join(out, ";")
+	case "ORD":
+		o := obj.(*graph.Orders)
+		pr, po := make([]int, g.n), make([]int, g.n)
+		for v := 0; v < g.n; v++ {
+			pr[v], po[v] = o.PreRank(v), o.PostRank(v)
+		}
+		return strings.Join([]string{dotted(o.PreOrder()), dotted(o.PostOrder()), dotted(o.ReversePostOrder()), dotted(pr), dotted(po)}, ";")
+	case "CC":
+		c := obj.(*graph.ConnectedComponents)
+		cs := c.Components()
+		return comps(len(cs), c.ID, g.n, cs)
+	case "SCC":
+		c := obj.(*graph.StronglyConnectedComponents)
+		cs := c.Components()
+		return comps(len(cs), c.ID, g.n, cs)
+	case "CYC":
+		if c, ok := obj.(*graph.DirectedCycle).Cycle(); ok {
+			return dotted(c)
+		}
+		return "-"
+	case "TOPO":
+		t := obj.(*graph.Topological)
+		order, ok := t.Order()
+		if !ok {
+			if _, ok2 := t.Rank(0); ok2 {
+				return "INCONSISTENT"
+			}
+			return "-"
+		}
+		rank := make([]int, g.n)
+		for v := 0; v < g.n; v++ {
+			rank[v], _ = t.Rank(v)
+		}
+		return dotted(order) + ";" + dotted(rank)
+	case "MST":
+		m := obj.(*graph.MinimumSpanningTree)
+		var es []string
+		for _, e := range m.Edges() {
+			v := e.Either()
+			w := e.Other(v)
+			es = append(es, fmt.Sprintf("%d.%d.%s", v, w, ff(e.Weight())))
+		}
+		s := strings.Join(es, ",")
+		if len(es) == 0 {
+			s = "_"
+		}
+		return s + ";" + ff(m.Weight())
+	case "SPT":
+		t := obj.(*graph.ShortestPathTree)
+		out := make([]string, 0, g.n)
+		for v := 0; v < g.n; v++ {
+			path, dist, ok := t.PathTo(v)
+			if !ok {
+				out = append(out, "-")
+				continue
+			}
+			var es []string
+			for _, e := range path {
+				es = append(es, fmt.Sprintf("%d.%d.%s", e.From(), e.To(), ff(e.Weight())))
+			}
+			s := strings.Join(es, ",")
+			if len(es) == 0 {
+				s = "_"
+			}
+			out = append(out, ff(dist)+":"+s)
+		}
+		if len(out) == 0 {
+			return "_"
+		}
+		return strings.Join(out, ";")
+	}
+	return "?"
+}
+
+func parseEdges(s string) []edge {
+	var es []edge
+	if s == "_" || s == "" {
+		return es
+	}
+	for _, t := range strings.Split(s, ";") {
+		p := strings.Split(t, ",")
+		e := edge{v: atoi(p[0]), w: atoi(p[1])}
+		if len(p) > 2 {
+			e.wt = atoi(p[2])
+		}
+		es = append(es, e)
+	}
+	return es
+}
+
+// adj dumps E() and every adjacency list as the library returns them.
+func (g *G) adj() string {
+	out := []string{}
+	wl := func(es []string) string {
+		if len(es) == 0 {
+			return "_"
+		}
+		return strings.Join(es, ",")
+	}
+	ecount := 0
+	for v := 0; v < g.n; v++ {
+		var es []string
+		switch g.kind {
+		case "U":
+			out = append(out, dotted(g.u.Adj(v)))
+			continue
+		case "D":
+			out = append(out, dotted(g.d.Adj(v)))
+			continue
+		case "WU":
+			for _, e := range g.wu.Adj(v) {
+				a := e.Either()
+				es = append(es, fmt.Sprintf("%d.%d.%s", a, e.Other(a), ff(e.Weight())))
+			}
+		case "WD":
+			for _, e := range g.wd.Adj(v) {
+				es = append(es, fmt.Sprintf("%d.%d.%s", e.From(), e.To(), ff(e.Weight())))
+			}
+		}
+		out = append(out, wl(es))
+	}
+	switch g.kind {
+	case "U":
+		ecount = g.u.E()
+	case "D":
+		ecount = g.d.E()
+	case "WU":
+		ecount = g.wu.E()
+	case "WD":
+		ecount = g.wd.E()
+	}
+	return strings.Join(append([]string{strconv.Itoa(ecount)}, out...), ";")
+}
+
 // run executes one op on the real implementation and returns the observed result.
 func (g *G) run(op string) string {
 	f := strings.Fields(op)
-	a := func(i int) int { v, _ := strconv.Atoi(f[i]); return v }
+	a := func(i int) int { return atoi(f[i]) }
 	switch f[0] {
+	case "NEW":
+		// construction through the variadic constructor
+		var es []edge
+		if len(f) > 1 {
+			es = parseEdges(f[1])
+		}
+		switch g.kind {
+		case "U":
+			l := make([][2]int, len(es))
+			for i, e := range es {
+				l[i] = [2]int{e.v, e.w}
+			}
+			g.u = graph.NewUndirected(g.n, l...)
+		case "D":
+			l := make([][2]int, len(es))
+			for i, e := range es {
+				l[i] = [2]int{e.v, e.w}
+			}
+			g.d = graph.NewDirected(g.n, l...)
+		case "WU":
+			l := make([]graph.UndirectedEdge, len(es))
+			for i, e := range es {
+				l[i] = graph.VerifUndirectedEdge(e.v, e.w, float64(e.wt))
+			}
+			g.wu = graph.NewWeightedUndirected(g.n, l...)
+		case "WD":
+			l := make([]graph.DirectedEdge, len(es))
+			for i, e := range es {
+				l[i] = graph.VerifDirectedEdge(e.v, e.w, float64(e.wt))
+			}
+			g.wd = graph.NewWeightedDirected(g.n, l...)
+		}
+		return "-"
+	case "ADJ":
+		return g.adj()
+	case "HOLD":
+		obj, ok := g.build(f[1:])
+		if !ok {
+			return "NA"
+		}
+		g.holds = append(g.holds, &holdT{f: append([]string(nil), f[1:]...), obj: obj})
+		return "-"
+	case "USE":
+		i := a(1)
+		if i < 0 || i >= len(g.holds) {
+			return "NA"
+		}
+		h := g.holds[i]
+		h.out = g.render(h.f, h.obj)
+		h.used = true
+		return h.out
 	case "E":
 		wt := 0.0
 		if len(f) > 3 {
@@ -169,124 +421,18 @@ func (g *G) run(op string) string {
 			return "_"
 		}
 		return strings.Join(ev, ",")
-	case "PATHS":
-		p := g.paths(a(2), strat(f[1]))
-		out := make([]string, 0, g.n)
-		for v := 0; v < g.n; v++ {
-			if path, ok := p.To(v); ok {
-				out = append(out, dotted(path))
-			} else {
-				out = append(out, "-")
-			}
-		}
-		if len(out) == 0 {
-			return "_"
-		}
-		return strings.Join(out, ";")
 	case "PATH":
 		p := g.paths(a(2), strat(f[1]))
 		if path, ok := p.To(a(3)); ok {
 			return dotted(path)
 		}
 		return "-"
-	case "ORD":
-		o := g.orders(strat(f[1]))
-		pr, po := make([]int, g.n), make([]int, g.n)
-		for v := 0; v < g.n; v++ {
-			pr[v], po[v] = o.PreRank(v), o.PostRank(v)
-		}
-		return strings.Join([]string{dotted(o.PreOrder()), dotted(o.PostOrder()), dotted(o.ReversePostOrder()), dotted(pr), dotted(po)}, ";")
-	case "CC":
-		var c *graph.ConnectedComponents
-		if g.kind == "U" {
-			c = g.u.ConnectedComponents()
-		} else if g.kind == "WU" {
-			c = g.wu.ConnectedComponents()
-		} else {
-			return "NA"
-		}
-		cs := c.Components()
-		return comps(len(cs), c.ID, g.n, cs)
-	case "SCC":
-		var c *graph.StronglyConnectedComponents
-		if g.kind == "D" {
-			c = g.d.StronglyConnectedComponents()
-		} else if g.kind == "WD" {
-			c = g.wd.StronglyConnectedComponents()
-		} else {
-			return "NA"
-		}
-		cs := c.Components()
-		return comps(len(cs), c.ID, g.n, cs)
-	case "CYC":
-		if g.kind != "D" {
-			return "NA"
-		}
-		if c, ok := g.d.DirectedCycle().Cycle(); ok {
-			return dotted(c)
-		}
-		return "-"
-	case "TOPO":
-		if g.kind != "D" {
-			return "NA"
-		}
-		t := g.d.Topological()
-		order, ok := t.Order()
-		if !ok {
-			if _, ok2 := t.Rank(0); ok2 {
-				return "INCONSISTENT"
-			}
-			return "-"
-		}
-		rank := make([]int, g.n)
-		for v := 0; v < g.n; v++ {
-			rank[v], _ = t.Rank(v)
-		}
-		return dotted(order) + ";" + dotted(rank)
-	case "MST":
-		if g.kind != "WU" {
-			return "NA"
-		}
-		m := g.wu.MinimumSpanningTree()
-		var es []string
-		for _, e := range m.Edges() {
-			v := e.Either()
-			w := e.Other(v)
-			es = append(es, fmt.Sprintf("%d.%d.%s", v, w, ff(e.Weight())))
-		}
-		s := strings.Join(es, ",")
-		if len(es) == 0 {
-			s = "_"
-		}
-		return s + ";" + ff(m.Weight())
-	case "SPT":
-		if g.kind != "WD" {
-			return "NA"
-		}
-		t := g.wd.ShortestPathTree(a(1))
-		out := make([]string, 0, g.n)
-		for v := 0; v < g.n; v++ {
-			path, dist, ok := t.PathTo(v)
-			if !ok {
-				out = append(out, "-")
-				continue
-			}
-			var es []string
-			for _, e := range path {
-				es = append(es, fmt.Sprintf("%d.%d.%s", e.From(), e.To(), ff(e.Weight())))
-			}
-			s := strings.Join(es, ",")
-			if len(es) == 0 {
-				s = "_"
-			}
-			out = append(out, ff(dist)+":"+s)
-		}
-		if len(out) == 0 {
-			return "_"
-		}
-		return strings.Join(out, ";")
 	}
-	return "?"
+	obj, ok := g.build(f)
+	if !ok {
+		return "NA"
+	}
+	return g.render(f, obj)
 }
 
 var stuck int
@@ -310,7 +456,7 @@ func (g *G) guarded(op string) string {
 	select {
 	case r := <-ch:
 		return r
-	case <-time.After(20 * time.Second):
+	case <-time.After(3 * time.Second):
 		stuck++
 		return "HANG"
 	}
@@ -327,7 +473,8 @@ func runCase(w *tr.W, kind string, n int, ops []string) {
 		}
 	}
 	w.End()
-	if stuck > 2 {
+	if stuck > 0 {
+		// the stuck goroutine keeps spinning (and possibly allocating): stop here, the last traced case is the culprit
 		w.Flush()
 		os.Exit(4)
 	}
@@ -551,6 +698,10 @@ func randomGraphs(w *tr.W, r *rng.R, kind string, cases, maxN int) {
 			src = append(src, []int{-1, n, n + 3}[r.Intn(3)])
 		}
 		ops := edgeOps(kind, es)
+		if r.Chance(1, 3) && len(es) > 0 && shape != 5 { // a prefix through the variadic constructor
+			k := r.Intn(len(es) + 1)
+			ops = append([]string{"NEW " + edgeList(kind, es[:k])}, edgeOps(kind, es[k:])...)
+		}
 		if r.Chance(1, 4) && len(ops) > 2 { // queries on an intermediate graph, then more edges
 			k := r.Intn(len(ops))
 			mid := battery(kind, n, src[:1], false)
@@ -564,6 +715,144 @@ func randomGraphs(w *tr.W, r *rng.R, kind string, cases, maxN int) {
 			ops = append(ops, fmt.Sprintf("SPT %d", n))
 		}
 		runCase(w, kind, n, ops)
+	}
+}
+
+func edgeList(kind string, es []edge) string {
+	if len(es) == 0 {
+		return "_"
+	}
+	parts := make([]string, len(es))
+	for i, e := range es {
+		if weighted(kind) {
+			parts[i] = fmt.Sprintf("%d,%d,%d", e.v, e.w, e.wt)
+		} else {
+			parts[i] = fmt.Sprintf("%d,%d", e.v, e.w)
+		}
+	}
+	return strings.Join(parts, ";")
+}
+
+func smallGraph(r *rng.R, maxN, maxM int) (int, []edge) {
+	n := r.Range(2, maxN)
+	m := r.Range(1, maxM)
+	es := make([]edge, 0, m)
+	for i := 0; i < m; i++ {
+		v, x := r.Intn(n), r.Intn(n)
+		if r.Chance(1, 3) && v+1 < n { // consecutive sources: neighbouring adjacency lists both non-empty
+			x = r.Intn(n)
+			if i%2 == 1 {
+				v = v + 1
+			}
+		}
+		es = append(es, edge{v, x, r.Intn(6)})
+	}
+	return n, es
+}
+
+// ctor: the graph is built by the variadic constructor from a prefix of the edge list and extended by AddEdge
+// (every split point); the adjacency lists are re-read after every AddEdge.
+func ctor(w *tr.W, r *rng.R, graphs int) {
+	for _, kind := range []string{"U", "D", "WU", "WD"} {
+		for c := 0; c < graphs; c++ {
+			n, es := smallGraph(r, 6, 7)
+			if c%10 == 9 {
+				n, es = smallGraph(r, 30, 60)
+			}
+			splits := make([]int, 0, len(es)+1)
+			for k := 0; k <= len(es); k++ {
+				splits = append(splits, k)
+			}
+			if len(es) > 8 {
+				splits = []int{0, 1, len(es) / 2, len(es) - 1, len(es)}
+			}
+			src := allSources(n)
+			if n > 6 {
+				src = []int{0, n / 2, n - 1}
+			}
+			for _, k := range splits {
+				ops := []string{"NEW " + edgeList(kind, es[:k]), "ADJ"}
+				for _, e := range es[k:] {
+					ops = append(ops, edgeOps(kind, []edge{e})[0], "ADJ")
+				}
+				ops = append(ops, battery(kind, n, src, false)...)
+				runCase(w, kind, n, ops)
+			}
+		}
+	}
+}
+
+// retain: several result objects of one graph object are kept, further queries (and AddEdge) follow, then the
+// EARLIER objects are read; the driver checks them against the graph as it was when they were created.
+func retain(w *tr.W, r *rng.R, graphs int) {
+	for _, kind := range []string{"U", "D", "WU", "WD"} {
+		for c := 0; c < graphs; c++ {
+			n, es := smallGraph(r, 9, 14)
+			late := 0
+			if len(es) > 2 {
+				late = r.Intn(3)
+			}
+			k := r.Intn(len(es) - late + 1)
+			var ops []string
+			if r.Bool() {
+				ops = append(ops, "NEW "+edgeList(kind, es[:k]))
+				ops = append(ops, edgeOps(kind, es[k:len(es)-late])...)
+			} else {
+				ops = edgeOps(kind, es[:len(es)-late])
+			}
+			holds := 0
+			hold := func(q string) { ops = append(ops, "HOLD "+q); holds++ }
+			for i := 0; i < 3; i++ {
+				hold(fmt.Sprintf("PATHS %s %d", strats[r.Intn(3)], r.Intn(n)))
+			}
+			hold("ORD " + strats[r.Intn(3)])
+			if directedK(kind) {
+				hold("SCC")
+			} else {
+				hold("CC")
+			}
+			if kind == "D" {
+				hold("CYC")
+				hold("TOPO")
+			}
+			if kind == "WU" {
+				hold("MST")
+			}
+			if kind == "WD" {
+				hold(fmt.Sprintf("SPT %d", r.Intn(n)))
+				hold(fmt.Sprintf("SPT %d", r.Intn(n)))
+			}
+			interfere := func() {
+				for i := 0; i < 3; i++ {
+					ops = append(ops, fmt.Sprintf("PATHS %s %d", strats[r.Intn(3)], r.Intn(n)))
+				}
+				ops = append(ops, fmt.Sprintf("TRAV %s %d", strats[r.Intn(3)], r.Intn(n)), "ORD "+strats[r.Intn(3)])
+				ops = append(ops, battery(kind, n, []int{r.Intn(n)}, false)...)
+			}
+			useAll := func() {
+				perm := make([]int, holds)
+				for i := range perm {
+					perm[i] = i
+				}
+				for i := holds - 1; i > 0; i-- {
+					j := r.Intn(i + 1)
+					perm[i], perm[j] = perm[j], perm[i]
+				}
+				for _, i := range perm {
+					ops = append(ops, fmt.Sprintf("USE %d", i))
+				}
+			}
+			interfere()
+			useAll()
+			ops = append(ops, edgeOps(kind, es[len(es)-late:])...)
+			if r.Bool() {
+				ops = append(ops, edgeOps(kind, []edge{{r.Intn(n), r.Intn(n), r.Intn(4)}})...)
+			}
+			hold(fmt.Sprintf("PATHS %s %d", strats[r.Intn(3)], r.Intn(n)))
+			interfere()
+			useAll()
+			runCase(w, kind, n, ops)
+		}
 	}
 }
 
@@ -648,7 +937,7 @@ func big(w *tr.W, r *rng.R, thorough bool) {
 }
 
 func main() {
-	mode := flag.String("mode", "exhaustive", "exhaustive|random|big")
+	mode := flag.String("mode", "exhaustive", "exhaustive|random|big|ctor|retain")
 	tier := flag.String("tier", "quick", "quick|thorough")
 	replay := flag.String("replay", "", "case file to re-execute")
 	flag.Parse()
@@ -706,5 +995,17 @@ func main() {
 		}
 	case "big":
 		big(w, rng.FromEnv(1403), thorough)
+	case "ctor":
+		k := 40
+		if thorough {
+			k = 600
+		}
+		ctor(w, rng.FromEnv(1404), k)
+	case "retain":
+		k := 150
+		if thorough {
+			k = 3000
+		}
+		retain(w, rng.FromEnv(1405), k)
 	}
 }
